@@ -51,6 +51,8 @@ def run(ctx):
             res.inconclusive += 1
             res.inconclusive_notes.append(o["inconclusive"])
     res.extra["flood_and_flow_rounds"] = fl
+    # "the one user currently owning that nickname": two members asking for one free nickname at the same moment
+    common.run_rename_storms(ctx, res, "c01:")
     res.distinct.add("flood:late-reader")
     res.distinct.add("flood:prompt-reader")
     common.sample_histories(res, results, ("PRIVMSG", "NOTICE"))
